@@ -127,11 +127,18 @@ def blocks(ft, mode):
         order.append("Child")
     holder = ["@dataclass", f"class Holder({base}):", "    node: Node = field(default_factory=lambda: Node())", "    inners: List[Inner] = field(default_factory=list)"]
     if ft["generic"]:
-        holder += ["    p1: Optional[Page[Inner]] = None", "    p2: Optional[Page[int]] = None", "    p3: Optional[Page[datetime.date]] = None"]
+        holder += ["    p1: Optional[Page[Inner]] = None", "    p2: Optional[Page[int]] = None", "    p3: Optional[Page[datetime.date]] = None",
+                   # a class with the same name from ANOTHER module: a distinct specialisation
+                   "    p4: Optional[Page[other.Inner]] = None"]
     if ft["child"]:
         holder.append("    child: Optional[Child] = None")
     out["Holder"] = "\n".join(holder) + "\n" + cfg(d_outer)
     order.append("Holder")
+    if ft["generic"]:
+        # a second holder whose only specialisation uses the same-named class of the other module: with lazy
+        # compilation the order of FIRST CALLS decides which specialisation is compiled first
+        out["Holder2"] = "@dataclass\n" + f"class Holder2({base}):\n    q: Optional[Page[other.Inner]] = None\n    n: int = 0\n" + cfg(d_outer)
+        order.append("Holder2")
     return out, order
 
 
@@ -145,12 +152,18 @@ class D1(Dialect):
 def build(ft, mode):
     fam = Family("c14", future_annotations=(mode == "postponed"))
     fam.exec_src(DIALECT_SRC)
+    if ft["generic"]:
+        other = Family("c14other")
+        lazy_cfg = "    class Config(BaseConfig):\n        lazy_compilation = True\n" if mode == "lazy" else ""
+        other.exec_src(f"@dataclass\nclass Inner({MIXINS[ft['mixin']]}):\n    s: str = 'o'\n    when: Optional[datetime.datetime] = None\n" + lazy_cfg)
+        fam.module.other = other.module
+        fam.other = other
     out, order = blocks(ft, mode)
     if mode == "postponed":
         # users of a class are defined BEFORE the class: annotations are unresolved at class creation
         seq = ["Holder"] + [n for n in ("Child",) if n in out]
         # Child(Node) needs its base first: define Node before Child but after Holder
-        seq = ["Holder", "Node"] + [n for n in ("Child",) if n in out] + [n for n in ("Page",) if n in out] + ["Inner"]
+        seq = [n for n in ("Holder2",) if n in out] + ["Holder", "Node"] + [n for n in ("Child",) if n in out] + [n for n in ("Page",) if n in out] + ["Inner"]
         if "Page" in out:
             # a generic base class must exist before it is subscripted only at runtime use; annotations are strings
             pass
@@ -179,15 +192,18 @@ def make_values(mod, ft):
         h.p1 = mod.Page([inner], inner)
         h.p2 = mod.Page([1, 2], 3)
         h.p3 = mod.Page([D(2010, 10, 10)], None)
+        h.p4 = mod.Page([mod.other.Inner("q", datetime.datetime(2020, 1, 2, 3, 4, 5))], mod.other.Inner("first"))
     if ft["child"]:
         vals["Child"] = mod.Child(3, inner, extra=D(2022, 2, 2))
         h.child = vals["Child"]
     vals["Holder"] = h
+    if ft["generic"]:
+        vals["Holder2"] = mod.Holder2(mod.Page([mod.other.Inner("z")], mod.other.Inner("y", datetime.datetime(2001, 2, 3, 4, 5, 6))), 7)
     return vals
 
 
 def norm(v):
-    return re.sub(r"c14_\d+\.", "", repr(v))
+    return re.sub(r"c14(other)?_\d+\.", lambda m: "other." if m.group(1) else "", repr(v))
 
 
 def op_list(ft):
@@ -197,10 +213,10 @@ def op_list(ft):
         fmts.append(("json", "to_jsonb", "from_json"))
     if "msgpack" in ft["mixin"]:
         fmts.append(("msgpack", "to_msgpack", "from_msgpack"))
-    classes = ["Holder", "Node", "Inner"] + (["Child"] if ft["child"] else [])
+    classes = ["Holder", "Node", "Inner"] + (["Child"] if ft["child"] else []) + (["Holder2"] if ft["generic"] else [])
     ops = []
     for c in classes:
-        has_d = ft["dialect"] == "all" or (ft["dialect"] == "outer-only" and c == "Holder")
+        has_d = ft["dialect"] == "all" or (ft["dialect"] == "outer-only" and c in ("Holder", "Holder2"))
         for f, to_m, from_m in fmts:
             for dial in ([False, True] if has_d else [False]):
                 ops.append((c, to_m, from_m, "to", dial))
@@ -323,6 +339,8 @@ def run_case(seed, tier, rec, st):
     finally:
         for f in fams:
             f.dispose()
+            if getattr(f, "other", None):
+                f.other.dispose()
 
 
 def op_name(op):
